@@ -905,6 +905,22 @@ func (n *TxNotifier) UpdateConfDetails(confRequest ConfRequest,
 	// Cache the details found in the rescan and attempt to dispatch any
 	// notifications that have not yet been delivered.
 	confSet.details = details
+
+	// Track the request by its initial confirmation height for as long as
+	// it can still be reorged out of the chain. This must not depend on a
+	// client being subscribed at this point: if every client canceled
+	// while the rescan was in flight, a later disconnect of the including
+	// block still has to clear the cached details and correct the height
+	// hint, otherwise future registrations are served stale details.
+	if details.BlockHeight+n.reorgSafetyLimit > n.currentHeight {
+		txSet, exists := n.confsByInitialHeight[details.BlockHeight]
+		if !exists {
+			txSet = make(map[ConfRequest]struct{})
+			n.confsByInitialHeight[details.BlockHeight] = txSet
+		}
+		txSet[confRequest] = struct{}{}
+	}
+
 	for _, ntfn := range confSet.ntfns {
 		// The default notification we assigned above includes the
 		// block along with the rest of the details. However not all
@@ -1374,6 +1390,20 @@ func (n *TxNotifier) updateSpendDetails(spendRequest SpendRequest,
 		"request %v", details.SpendingHeight, spendRequest)
 
 	spendSet.details = details
+
+	// Track the request by its spending height for as long as the spend
+	// can still be reorged out of the chain, even if no client is
+	// subscribed at this point (see UpdateConfDetails).
+	spendHeight := uint32(details.SpendingHeight)
+	if spendHeight+n.reorgSafetyLimit > n.currentHeight {
+		opSet, exists := n.spendsByHeight[spendHeight]
+		if !exists {
+			opSet = make(map[SpendRequest]struct{})
+			n.spendsByHeight[spendHeight] = opSet
+		}
+		opSet[spendRequest] = struct{}{}
+	}
+
 	for _, ntfn := range spendSet.ntfns {
 		err := n.dispatchSpendDetails(ntfn, spendSet.details)
 		if err != nil {
